@@ -90,7 +90,7 @@ def mk_grammar(gid, prods_spec, unions=None, with_pos=False, ks=(0, 1, 2, -1), c
             "body": {"op": "cap", "f": "X", "fk": "union", "kid": {"op": "union", "u": "URoot"}}}
     u = {"URoot": [prods_spec[0][0]]}
     u.update(unions or {})
-    return {"id": gid, "prods": [root] + prods, "unions": u, "inputs": [], "ks": list(ks), "maxiter": 1000000, "conv": GG.conv_table(), "ci": ci, "trailing": trailing}
+    return {"id": gid, "prods": [root] + prods, "unions": u, "inputs": [], "ks": list(ks), "maxiter": 1000000, "conv": GG.conv_table(), "ci": ci, "citypes": ["Ident"] if ci else [], "trailing": trailing}
 
 
 def F(name, kind, arg=""):
@@ -236,7 +236,7 @@ def leak_family(rng, quick):
         root = {"name": "DynRoot", "fields": [{"name": "X", "kind": "union", "arg": "URoot", "tag": "@@"}],
                 "body": {"op": "cap", "f": "X", "fk": "union", "kid": {"op": "union", "u": "URoot"}}}
         g = {"id": "k%d" % idx, "schema": [cp, nested, kind], "prods": [root] + prods, "unions": {"URoot": ["P0"]}, "inputs": [], "ks": [0, 1, 2, 4, -1],
-             "maxiter": 1000000, "conv": GG.conv_table(), "ci": False, "trailing": False}
+             "maxiter": 1000000, "conv": GG.conv_table(), "ci": False, "citypes": [], "trailing": False}
         seen = set()
         a = "7" if kind == "int8" else "x"
         nest = {"none": [[]], "complete": [["(", "y", ")"]], "partial": [["(", "y", "9", ")"], ["(", "y", ")"], ["(", "y", "9"]],
@@ -409,6 +409,9 @@ def run(pid, tier, args):
         v.notes["family"] = "seeded grammars (seed %d) of family F_%s, inputs: exhaustive short token strings + sampled/mutated sentences; every lookahead of each case" % (vlib.seed(), pid)
         v.assumptions += ["struct types built with reflect.StructOf and participle.Union (dynamic, anonymous types)", "token streams of the case file equal Parser.Lex (self-checked each run)",
                           "grammar-bug constructs (nullable alternative/repetition body) are excluded from the verdict"]
+        if pid == "C01" and not args.replay:
+            from props import recorded
+            recorded.check(v, wd, pid)
         if pid in ("C01", "C02") and not args.replay:
             # small-step machine: refinement to Meaning + validation of the real parser's hook traces
             from props import machine
